@@ -335,6 +335,24 @@ def gen_del_case(rng):
                 'cmd': [render_cmd_path(prefix + ['m']) + '=' + render_flow(value).strip()]}
     return case
 
+def gen_fn_case(rng):
+    """(F) a function node below a !notnew root: base `{..: {opt: !bind:F {a: x, b: y}, k: 1}}`, override `!notnew {..: {opt: !call:G {..}}}`
+    with the same or ANOTHER target, restating some arguments and writing 0-2 argument names the base does not have: arguments are
+    paths like any other (seeded change S5-C08: a target change returned early, before the allow_new check of the incoming arguments)"""
+    prefix = rng.sample(['w', 'v'], rng.choice([0, 0, 1]))
+    f1, f2 = rng.choice(['rec.f', 'rec.g']), rng.choice(['rec.f', 'rec.g'])
+    k1, k2 = rng.choice(['call', 'bind']), rng.choice(['call', 'bind'])
+    args = rng.sample(['a', 'b', 'p', 'q'], rng.choice([1, 2, 3]))
+    base = G.nest(prefix + ['opt'], M([(a, S(rng.choice([1, 'x', True]))) for a in args], tag={'k': k1, 'f': f1}))
+    base['m'].append([sc_json('k'), S(1)])
+    keep = [a for a in args if rng.random() < 0.6]
+    new = rng.sample(['start', 'zz', 'n2'], rng.choice([0, 0, 1, 1, 2]))
+    items = [(a, S(rng.choice([2, 'y', None]))) for a in keep + new]
+    rng.shuffle(items)
+    over = G.nest(prefix + ['opt'], M(items, tag={'k': k2, 'f': f2}, kw=rng.choice([{}, {}, {'del': False}, {'prio': 1}])))
+    over['kw'] = {'new': False}; over['t'] = {'k': 'plain'}
+    return {'docs': [{'raw': base}, {'raw': over}], 'style': ['flow', 0, 0], 'kind': 'F', 'fnpath': prefix + ['opt'], 'old': args, 'new': new}
+
 class C08(MergeFamProp):
     ID = 'C08'
     VOCAB = G.Vocab(notnew=True, new=True)
@@ -457,6 +475,8 @@ class C08(MergeFamProp):
             out.append({'docs': [{'raw': base}, {'raw': o}], 'style': ['flow', 0, 0], 'kind': 'N'})
         for _ in range(max(4, n // 5)):   # (D), drawn last: the cases above stay the same for a seed
             out.append(gen_del_case(rng))
+        for _ in range(max(4, n // 8)):   # (F), after them
+            out.append(gen_fn_case(rng))
         return out
 
     def cmd_docs(self, case):
@@ -568,10 +588,39 @@ class C08(MergeFamProp):
             return f'MergeError names {named!r}, which exists in the base config'
         return None
 
+    def oracle_fn(self, case, io):
+        """(F): below a !notnew root a function node gets no argument it did not have; a refused override is a MergeError naming
+        one of the new arguments"""
+        if len(case['docs']) != 2 or (case['docs'][1]['raw'].get('kw') or {}).get('new') is not False:
+            return None       # shrunk out of the family
+        tree, cfg = io['tree'], io['cfg']
+        fnp, old, new = case['fnpath'], case['old'], case['new']
+        if 'ok' in tree:
+            n = tree['ok']
+            for k in fnp:
+                n = next((c for kk, c in n.get('c', []) if sc_py(kk) == k), None) if n else None
+            if n is None:
+                return None
+            created = [sc_py(k) for k, _ in n.get('c', []) if sc_py(k) not in old]
+            if created:
+                return (f'the merge succeeded and the function node at {".".join(fnp)} has the argument(s) {created}, which did not exist '
+                        f'before, below a !notnew root')
+            return None
+        if new and tree.get('err') == 'merge' and tree.get('notnew') is not None:
+            try:
+                p = [sc_py(k) for k in NodePath.get_list_path(tree['notnew'])]
+            except Exception:
+                return f'MergeError names an unparsable path {tree["notnew"]!r}'
+            if p[:-1] != fnp or p[-1] not in new:
+                return f'MergeError names {tree["notnew"]!r}, expected one of the new arguments {new} of {".".join(fnp)}'
+        return None
+
     def oracle(self, case, io, ans):
         kind = case.get('kind')
         if kind == 'D':
             return self.oracle_del(case, io)
+        if kind == 'F':
+            return self.oracle_fn(case, io)
         if kind not in ('A', 'B', 'N'):
             return None
         cfg = io['cfg']
